@@ -673,7 +673,6 @@ def run(chk):
     # --- support sequences
     sc = [tree_case(rng, chk.tier) for _ in range(chk.n(120, 2000))]
     sc += [malform(rng, tree_case(rng, chk.tier)) for _ in range(chk.n(20, 300))]
-    sc = [c for c in sc if c['kind'] not in ('non-dyadic',) or True]
     # --- balanced extrapolation
     bc = [dict(kind='full', grid=[[0, 1], [1, 8], [1, 4], [3, 8], [1, 2], [3, 4], [1, 1]], levels=[0, 3, 2, 3, 1, 2, 0]),
           dict(kind='complete', grid=[[k, 8] for k in range(9)], levels=[0, 3, 2, 3, 1, 3, 2, 3, 0])]
@@ -714,7 +713,7 @@ def run(chk):
 def replay(chk, rep):
     c = rep['case']
     check = rep.get('check', '')
-    sub = Check2(chk)
+    sub = chk
     if 'variants' in c:
         check_sliced(sub, [dict(c, wrapper=True)])
     elif 'version' in c:
@@ -736,6 +735,3 @@ def replay(chk, rep):
         print('implementation and model agree; property predicate holds')
     return bad
 
-
-def Check2(chk):
-    return chk
